@@ -1,11 +1,14 @@
 #!/bin/sh
 # Build the Coq development from files on disk (full .vo build; offline).
-cd /verif/coq || exit 2
+cd "$(dirname "$0")/coq" || exit 2
 export OCAMLRUNPARAM="${OCAMLRUNPARAM:-i=32M}"
 rm -f _CoqProject Makefile Makefile.conf .Makefile.d
 cat _CoqProject.head > _CoqProject
 find Base Model Proofs Properties Findings -name '*.v' | sort >> _CoqProject
 coq_makefile -f _CoqProject -o Makefile || exit 2
-timeout 7200 make -j4 2>&1 | tail -40
-timeout 7200 make -j1 >/dev/null 2>&1 || { echo "BUILD FAILED"; exit 1; }
+date
+timeout 10800 make -j3 2>&1 | tail -40
+timeout 10800 make -j1 2>&1 | tail -5
+timeout 600 make -j1 >/dev/null 2>&1 || { echo "BUILD FAILED"; exit 1; }
+date
 echo "coq build ok"
